@@ -160,10 +160,17 @@ def _real_worker(case):
         mapper, base = mapper_session(LabelMapper, case, lambda mp, c: mp.build_model(initial_labels=init_arg(c)))
     except Exception as e:  # noqa: BLE001
         return {"build": {"err": ["base:" + type(e).__name__]}}
+    import copy
+
+    il = init_arg(case)
+    il_keep = copy.deepcopy(il)
     try:
-        lm = mapper.build_model(initial_labels=init_arg(case))
+        lm = mapper.build_model(initial_labels=il)
     except Exception as e:  # noqa: BLE001
         return {"build": _exc(e), "attrs": attrs_of(mapper)}
+    if il != il_keep:
+        # the caller's labelling request is not the library's to change (it is typically reused for the next build)
+        return {"build": {"err": ["caller's initial_labels dict was modified by build_model"]}, "attrs": attrs_of(mapper)}
     out["build"] = {"ok": True}
     out["attrs"] = attrs_of(mapper)
     out["rxns"] = canon_rxns([[k, r.args, list(r.stoichiometry.items())] for k, r in lm.get_raw_reactions().items()])
